@@ -190,15 +190,17 @@ def run(rep, tier):
             continue
         n_hdr += 1
         out_s = Sym("out", "stream")
-        ts, size = Sym("ts", "int"), Sym("size", "int")
+        # distinctive concrete values: the header is compared as one byte string, so it does not matter how the writes are split, ordered into
+        # temporaries or shared between version branches
+        ts, size = 0x11223344, 0x55667788
 
         def hook(spec, name, fv, args, kw, node):
             if name == "builtin-open" or (fv is None):
                 return out_s
-            if name == "isinstance" and len(args) == 2 and args[0] is ts:
-                return args[1] is int
             if name == "isinstance" and len(args) == 2 and isinstance(args[0], Sym) and args[0].name == "code_obj":
                 return False
+            if name == "isinstance" and len(args) == 2 and isinstance(args[0], int) and not isinstance(args[1], (type, tuple)):
+                return False  # the timestamp is a plain int, not an instance of the (opaque) datetime class
             if name.endswith("marsh.dumps"):
                 spec.effect("dumps", args[0], node=node)
                 told.append(kw.get("python_version", args[2] if len(args) > 2 else "<not passed: the host's version>"))
@@ -210,52 +212,76 @@ def run(rep, tier):
         okv = len(told) == 1 and isinstance(told[0], tuple) and tuple(told[0][:2]) == tuple(version[:2])
         rep.ob("R2", f.qualname, "magic=%d:marshaller-told-target-version" % mg, okv, expected=list(version[:2]), derived=[show(t_) for t_ in told],
                msg="write_bytecode_file(magic %d) does not hand Python %d.%d to xdis.marsh.dumps: the marshaller then writes for the host's version" % (mg, version[0], version[1]))
-        writes = []
+        import struct as _struct
+        stream, cond_writes = [], []
         for k, e in flatten_effects(sp.effects):
-            if k == "stream.write" and (not e.guards or all("ts" not in show(g) or show(g) == "ts" for g in e.guards)):
-                a = e.args[1][0]
-                if any(show(g) == "not(ts)" for g in e.guards):
-                    continue
-                writes.append(a)
-        desc = []
-        for a in writes:
+            if k != "stream.write":
+                continue
+            if e.guards:
+                cond_writes.append(show(e.guards[0])[:60])
+            a = e.args[1][0]
             if isinstance(a, (bytes, bytearray)):
-                desc.append(("bytes", bytes(a)))
-            elif isinstance(a, Op) and a.op == "call" and a.args[0] == "pack":
-                desc.append(("pack", a.args[1], show(a.args[2])))
+                piece = bytes(a)
+            elif isinstance(a, Op) and a.op == "call" and a.args[0] == "pack" and all(isinstance(x, (int, bytes, str)) for x in a.args[1:]):
+                try:
+                    piece = _struct.pack(*a.args[1:])
+                except Exception as ex:
+                    piece = "<pack%r: %s>" % (a.args[1:], ex)
             elif isinstance(a, Sym) and a.name == "payload":
-                desc.append(("payload",))
+                piece = "<payload>"
             else:
-                desc.append(("other", show(a)[:60]))
-        want = [("bytes", magic_bytes(mg))]
+                piece = "<%s>" % show(a)[:60]
+            if stream and isinstance(piece, bytes) and isinstance(stream[-1], bytes):
+                stream[-1] += piece
+            else:
+                stream.append(piece)
         layout = expected_layout(mg, version)
+        head = magic_bytes(mg)
         if layout == "pep552":
-            want.append(("bytes", b"\x00\x00\x00\x00"))
-        want.append(("pack", "<I", "ts"))
+            head += b"\x00\x00\x00\x00"
+        head += _struct.pack("<I", ts)
         if layout in ("ts_size", "pep552"):
-            want.append(("pack", "<I", "size"))
-        want.append(("payload",))
-        rep.ob("R2", f.qualname, "magic=%d:header" % mg, desc == want, expected=[str(w_) for w_ in want], derived=[str(d) for d in desc],
-               msg="write_bytecode_file(magic %d) writes a header that load_module (and Python %d.%d) reads differently" % (mg, version[0], version[1]))
+            head += _struct.pack("<I", size)
+        want = [head, "<payload>"]
+        rep.ob("R2", f.qualname, "magic=%d:header" % mg, stream == want and not cond_writes, expected=[w_.hex() if isinstance(w_, bytes) else w_ for w_ in want],
+               derived=[d_.hex() if isinstance(d_, bytes) else d_ for d_ in stream] + cond_writes[:2],
+               msg="write_bytecode_file(magic %d, timestamp 0x11223344, source size 0x55667788) writes a header that load_module (and Python %d.%d) reads differently" % (mg, version[0], version[1]))
     rep.floor("header configurations", n_hdr, 20)
     # ---------------------------------------------------------------- R4 chunk assembly of dumps()
     d = mm.ns.get("dumps")
     if not isinstance(d, FuncRef):
         raise AnalysisError("anchor vanished: xdis.marsh.dumps")
     rep.analysed(d.qualname)
-    src = ast.unparse(d.node)
-    # every str chunk is converted with one byte per character, bytes chunks appended unchanged, joined in order
-    byte_per_char = "bytes((ord(b[j]) for j in range(len(b))))" in src or "bytes(ord(b[j]) for j in range(len(b)))" in src
-    joined = "b''.join(buf)" in src
-    passthrough = False
-    for n in ast.walk(d.node):
-        if isinstance(n, ast.If) and "isinstance(b, str)" in ast.unparse(n.test):
-            for o in n.orelse:
-                txt = ast.unparse(o)
-                if "buf.append(b)" in txt:
-                    passthrough = True
-    rep.ob("R4", d.qualname, "str-chunks-one-byte-per-char", byte_per_char, expected="bytes(ord(c) for c in chunk)", derived=byte_per_char)
-    rep.ob("R4", d.qualname, "bytes-chunks-unchanged-in-order", passthrough and joined, expected="buf.append(b); b''.join(buf)", derived=[passthrough, joined])
+    # the marshaller is replaced by a stub that hands five known chunks (text with ordinals < 256, bytes incl. 0x00/0x80/0xff, an empty chunk) to the sink
+    # dumps() gave it; the rest of dumps() is folded: the result must be those chunks, one byte per character, in order
+    CH = ["a{", b"\xff\x00\x80", "\xe9\x7f", b"", "z"]
+    want_b = b"".join(c if isinstance(c, bytes) else bytes(ord(ch) for ch in c) for c in CH)
+    for pv in ((3, 8), (3, 12, 1), (2, 7), (1, 5), None):
+        st = {}
+
+        def hook4(spec, name, fv, args, kw, node, st=st):
+            if name.endswith("marsh._Marshaller"):
+                st["w"] = args[0] if args else kw.get("writefunc")
+                st["told"] = kw.get("python_version", args[1] if len(args) > 1 else None)
+                return Instance(M)
+            if name.endswith("_Marshaller.dump"):
+                w = st.get("w")
+                for c in CH:
+                    if callable(w):
+                        w(c)
+                    else:
+                        spec.call(w, [c], {}, node, {})
+                return None
+            return NotImplemented
+        sp4 = Spec(F, hooks=[hook4])
+        try:
+            o4 = sp4.run(d, [Sym("x")], {"python_version": pv})
+            got4 = [getattr(l, "value", None) if isinstance(l, Ret) else "raises/falls: %s" % type(l).__name__ for g_, l in leaves(o4)]
+        except Exception as ex:
+            got4 = ["not evaluable: %s" % ex]
+        rep.ob("R4", d.qualname, "chunks-joined-byte-per-char@target=%s" % (".".join(map(str, pv[:2])) if pv else "None"), got4 == [want_b], expected=repr(want_b),
+               derived=[show(v_)[:80] for v_ in got4],
+               msg="dumps(x, python_version=%r) does not return the marshaller's chunks byte for byte (text chunks one byte per character, bytes chunks unchanged, in order)" % (pv,))
     # ---------------------------------------------------------------- R6 / R7 Python 2 targets: text and integer kinds
     from .c14 import writer_trace
     Mcls = F.modules["xdis.marsh"].ns.get("_Marshaller")
